@@ -6,6 +6,7 @@ pub mod gen;
 pub mod parse_model;
 pub mod refint;
 pub mod runner;
+pub mod script_rng;
 pub mod shadow;
 
 pub use case::{Bytes, CaseData, Pat};
